@@ -8,8 +8,9 @@
 (*     end, return (from the enclosing function), returnNested (return from   *)
 (*     a block nested in the body), throw, throwNested (a called function     *)
 (*     throws), break, continue (both are exceptions inside a block)          *)
-(* A step on a transaction that was already ended explicitly throws (W/D/C    *)
-(* after R, W/D/R after C); a step that throws ends the body.                 *)
+(* A step on a transaction that was already ended explicitly has no effect    *)
+(* (the code throws: W/D/C after R, W/D/R after C); a step that throws ends   *)
+(* the body.                                                                  *)
 (*                                                                            *)
 (* Rule of the deferred completion (C42): when the body is left, an active    *)
 (* transaction is completed if the body did not throw (normal end or return)  *)
@@ -52,8 +53,9 @@ Begin == /\ status = "idle"
          /\ status' = "active" /\ pend' = {} /\ thrown' = "none" /\ explicit' = "none" /\ nsteps' = 0
          /\ UNCHANGED <<db, nprogs, out>>
 
-\* a step that throws because the transaction was already ended
-Throws == /\ thrown' = "other" /\ UNCHANGED <<db, status, pend, explicit>>
+\* a step on a transaction that was already ended explicitly: the code throws; the property
+\* only needs that it has no effect, so "nothing happens" is allowed as well
+Throws == /\ thrown' \in {"other", "none"} /\ UNCHANGED <<db, status, pend, explicit>>
 
 Write(op, k) ==
     /\ Running
